@@ -145,6 +145,12 @@ def redefinition_check(rng, t, call, models=('Plate', 'CPanel', 'KPanel'), extra
         case['r'] = max(case['r'], 1.5 * case['a'] * math.sin(math.radians(case['alphadeg'])) + 0.3)
     if len(case['stack']) < 2:
         case['stack'] = list(case['stack']) + [30.]
+    # no field may be switched off by its edge flags (few terms + zero flags would make every matrix vanish and the comparison void)
+    case['m'], case['n'] = max(case['m'], 2), max(case['n'], 2)
+    for f_ in 'uvw':
+        for d_ in 'xy':
+            if not case['flags'][f_ + '1r' + d_]:
+                case['flags'][f_ + '1r' + d_] = 1.
 
     def build(c):
         p = make_panel(c)
@@ -194,6 +200,9 @@ def redefinition_check(rng, t, call, models=('Plate', 'CPanel', 'KPanel'), extra
     want = call(fresh)
     d = rel_diff(np.asarray(got), np.asarray(want))
     desc = dict(case=case, edit=edit, edited=c2)
+    if d > 1e-12 and edit == 'plyt' and not np.any(np.asarray(got)) and np.any(np.asarray(want)):
+        # the call under test never runs Panel._rebuild(): with the per-ply list reset it sums an EMPTY list of thicknesses
+        desc['identity'] = 'no-rebuild-after-plyts-reset'
     if d > 1e-12:
         return desc, ('after editing the panel\'s %s the result differs from that of a freshly defined panel with the edited data: '
                       'rel %.3e (change against the first evaluation: %.3e)' % (edit, d, rel_diff(np.asarray(first), np.asarray(want))))
